@@ -31,6 +31,35 @@ var codeToHTTPStatus = [...]int{
 	http.StatusUnauthorized,        // 16
 }
 
+// codeToTwirp maps gRPC codes to twirp error codes.
+// https://twitchtv.github.io/twirp/docs/spec_v7.html#error-codes
+var codeToTwirp = [...]string{
+	"ok",                  // 0
+	"canceled",            // 1
+	"unknown",             // 2
+	"invalid_argument",    // 3
+	"deadline_exceeded",   // 4
+	"not_found",           // 5
+	"already_exists",      // 6
+	"permission_denied",   // 7
+	"resource_exhausted",  // 8
+	"failed_precondition", // 9
+	"aborted",             // 10
+	"out_of_range",        // 11
+	"unimplemented",       // 12
+	"internal",            // 13
+	"unavailable",         // 14
+	"dataloss",            // 15
+	"unauthenticated",     // 16
+}
+
+func twirpCode(c codes.Code) string {
+	if int(c) >= len(codeToTwirp) {
+		return "unknown"
+	}
+	return codeToTwirp[c]
+}
+
 func HTTPStatusCode(c codes.Code) int {
 	if int(c) >= len(codeToHTTPStatus) {
 		return http.StatusInternalServerError
